@@ -35,7 +35,10 @@ def main():
             if not d.endswith(".go"):
                 continue
             pkgdir = None
-            for m in re.finditer(r"([\w/\.\-]*/)" + re.escape(os.path.basename(d)), readme + " " + json.dumps(meta)):
+            dd = str(meta.get("demo_dir") or "").strip().strip("/").lstrip("./")
+            if dd and os.path.isdir(os.path.join(W, dd)):
+                pkgdir = dd
+            for m in ([] if pkgdir else re.finditer(r"([\w/\.\-]*/)" + re.escape(os.path.basename(d)), readme + " " + json.dumps(meta))):
                 cand = m.group(1).rstrip("/")
                 if "repo/" in cand:
                     cand = cand.split("repo/", 1)[1]
